@@ -129,7 +129,9 @@ def _user(case, lean):
             rs = sorted((float(sims[v]) for v in rated), reverse=True)
             if len(rs) > k:
                 over_k += 1
-                if rs[k - 1] == rs[k]: continue
+                # a tie at the cut — exact, or within the rounding of two float32 dot products (the harness recomputes the similarities
+                # with NumPy, the implementation with torch): either neighbour may be kept, the claim is "up to exact ties"
+                if abs(rs[k - 1] - rs[k]) <= 2e-6 * max(1.0, abs(rs[k])): continue
             real = None if np.isnan(sc[t]) else float(sc[t]) - umean
             mod = None if res["impl"] is None else float(Fraction(res["impl"]))
             ok = (real is None and mod is None) or (real is not None and mod is not None and _near(real, mod, 2e-4))
